@@ -81,6 +81,34 @@ def _wsgi_boot_fn():
     return ns["wsgi_boot"]
 
 
+def _cli_boot_fn():
+    """The start-up part of `xandikos.web.main` (what `xandikos --defaults / --autocreate` runs before the aiohttp
+    wiring) as a plain function of the parsed options, compiled from the current source:
+    cli_boot(options, parser) -> (backend, main_app, options)."""
+    src = textwrap.dedent(inspect.getsource(Wb.main))
+    fn = ast.parse(src).body[0]
+    keep = []
+    for st in fn.body:
+        if isinstance(st, ast.Expr) and isinstance(getattr(st, "value", None), ast.Constant):
+            continue
+        keep.append(st)
+        if isinstance(st, ast.Assign) and any(isinstance(t, ast.Name) and t.id == "main_app" for t in st.targets):
+            break
+    else:
+        raise RuntimeError("xandikos.web.main no longer builds `main_app`: harness must be adapted")
+    for st in keep:
+        for node in ast.walk(st):
+            if isinstance(node, (ast.Await, ast.AsyncFor, ast.AsyncWith)):
+                raise RuntimeError("xandikos.web.main awaits before building main_app: harness must be adapted")
+    keep.append(ast.parse("return (backend, main_app, options)").body[0])
+    new = ast.FunctionDef(name="cli_boot", args=fn.args, body=keep, decorator_list=[], type_params=[])
+    mod = ast.Module([new], [])
+    ast.fix_missing_locations(mod)
+    ns = dict(vars(Wb))
+    exec(compile(mod, "<xandikos.web.main start-up>", "exec"), ns)
+    return ns["cli_boot"]
+
+
 class _EnvOS:
     """`os` as xandikos/wsgi.py uses it: environment variables + the model file system."""
 
@@ -95,10 +123,25 @@ class _EnvOS:
 
 _BOOT = _boot_fn()  # at import time: outside CrossHair's tracing
 _WSGI_BOOT = _wsgi_boot_fn()
+_CLI_BOOT = _cli_boot_fn()
 
 
-def boot(principal, autocreate, defaults, wsgi_module=False):
+def boot(principal, autocreate, defaults, wsgi_module=False, cli_prefix=None):
     Wb.open_store_from_path.cache_clear()
+    if cli_prefix is not None:
+        import argparse
+        import logging
+        opts = argparse.Namespace(dump_dav_xml=False, route_prefix=cli_prefix, debug=False, directory=mweb.ROOT, paranoid=False,
+                                  index_threshold=None, current_user_principal=principal, autocreate=autocreate,
+                                  defaults=defaults, strict=True, detect_systemd=False)
+        saved = logging.basicConfig
+        logging.basicConfig = lambda **kw: None
+        try:
+            backend, app, opts = _CLI_BOOT(opts, None)
+        finally:
+            logging.basicConfig = saved
+        ROUTE[0] = opts.route_prefix
+        return backend, app
     if wsgi_module:
         env = {"XANDIKOSPATH": mweb.ROOT, "CURRENT_USER_PRINCIPAL": principal}
         if defaults:
@@ -107,6 +150,9 @@ def boot(principal, autocreate, defaults, wsgi_module=False):
             env["AUTOCREATE"] = "yes"
         return _WSGI_BOOT(_EnvOS(env))
     return _BOOT(mweb.ROOT, principal, autocreate=autocreate, defaults=defaults)
+
+
+ROUTE = [None]  # route prefix as normalised by the CLI start-up
 
 
 def seg_ok(s):
@@ -138,6 +184,7 @@ CHS = "{urn:ietf:params:xml:ns:caldav}calendar-home-set"
 AHS = "{urn:ietf:params:xml:ns:carddav}addressbook-home-set"
 CUP = "{DAV:}current-user-principal"
 RT = "{DAV:}resourcetype"
+PURL = "{DAV:}principal-URL"
 
 
 def discover(app, prefix, wsgi):
@@ -151,8 +198,15 @@ def discover(app, prefix, wsgi):
     ppath = _deref(app, hs[0], prefix)
     if ppath is None:
         return None
-    sts = _propfind(app, ppath, [CHS, AHS, RT], prefix, wsgi)
+    sts = _propfind(app, ppath, [CHS, AHS, RT, PURL], prefix, wsgi)
     if not sts:
+        return None
+    # the principal says it is one, and its principal-URL leads back to itself
+    rt = mweb.prop_el(sts[0], RT)
+    if rt is None or not any(ch.tag == "{DAV:}principal" for ch in rt):
+        return None
+    pu = _hrefs(mweb.prop_el(sts[0], PURL))
+    if len(pu) != 1 or (_deref(app, pu[0], prefix) or "").rstrip("/") != ppath.rstrip("/"):
         return None
     found = {}
     for which, want_type in ((CHS, "{urn:ietf:params:xml:ns:caldav}calendar"),
@@ -179,35 +233,53 @@ def discover(app, prefix, wsgi):
 SEGMENU = ["a", "u s", "é", "user", "b.c", "a+b", "x#y"]
 
 
-def body_discovery(i1, i2, nseg, slash, restarts, bare_existing=False):
+def body_discovery(i1, i2, nseg, slash, restarts, bare_existing=False, plain_last=False):
     """(every input is an index into a finite menu: the solver branches on each, the chain itself then runs on
     concrete values outside the tracer, so each part is covered exhaustively)"""
     from xv.core import pick
     i1, i2, nseg = pick(i1, len(SEGMENU)), pick(i2, len(SEGMENU)), pick(nseg, 3)
     restarts = pick(restarts, ctx.b.restarts + 1)
     slash, bare_existing = (True if slash else False), (True if bare_existing else False)
+    plain_last = True if plain_last else False
     try:
         from crosshair.tracers import NoTracing
     except ImportError:
         import contextlib
         NoTracing = contextlib.nullcontext
     with NoTracing():
-        return _discovery(i1, i2, nseg, slash, restarts, bare_existing)
+        # (trailing slash of the principal option and the flagless last restart are looped over here)
+        last = (True, "none")
+        for slash_ in (False, True):
+            for plain_ in ((False, True) if restarts >= 1 else (False,)):
+                last = _discovery(i1, i2, nseg, slash_, restarts, bare_existing, plain_)
+                if not last[0]:
+                    return last
+        return last
 
 
-def _discovery(i1, i2, nseg, slash, restarts, bare_existing=False):
-    prefix, wsgi, mode = ctx.PART  # mode: "defaults" | "autocreate" | "wsgi-defaults" (xandikos/wsgi.py start-up)
+def _discovery(i1, i2, nseg, slash, restarts, bare_existing=False, plain_last=False):
+    prefix, wsgi, mode = ctx.PART  # mode: "defaults" | "autocreate" | "wsgi-<m>" (xandikos/wsgi.py) | "cli-<m>" (web.main)
     wsgi_module = mode.startswith("wsgi-")
+    cli = mode.startswith("cli-")
     if wsgi_module:
         mode = mode[5:]
+    if cli:
+        mode = mode[4:]
+    # the command line is given the prefix WITHOUT its trailing slash: main() must add it
+    cli_prefix = (prefix.rstrip("/") or "/") if cli else None
     segs = [SEGMENU[i1], SEGMENU[i2]][:nseg]
     principal = "/" + "/".join(segs) + ("/" if slash and segs else "")
     if nseg == 0:
         return (True, "pre-invalid")
     w = Wm.reset()
-    for d in ("/srv", mweb.ROOT):
+    # the data directory itself does not exist on the very first start when the principal has two segments and
+    # bare_existing is off (the usual first run); every start-up creates it under --autocreate / --defaults
+    root_missing = (nseg == 2 and not bare_existing)
+    for d in (("/srv",) if root_missing else ("/srv", mweb.ROOT)):
         w.dirs.add(d)
-    backend, app = boot(principal, mode == "autocreate", mode == "defaults", wsgi_module)
+    backend, app = boot(principal, mode == "autocreate", mode == "defaults", wsgi_module, cli_prefix)
+    if cli and ROUTE[0] != prefix:
+        return (False, "route-prefix-not-normalised")
     base = "/" + "/".join(segs)
     if mode == "defaults":
         cal = base + "/calendars/calendar"
@@ -229,9 +301,13 @@ def _discovery(i1, i2, nseg, slash, restarts, bare_existing=False):
         mstore.install_state("bare", ab, {"k.vcf": b"v7"})
         mweb.set_type(ab, "addressbook")
         Wb.open_store_from_path.cache_clear()
-    for _ in range(restarts):
+    for k in range(restarts):
         before = Wm.digest(w)
-        backend, app = boot(principal, mode == "autocreate", mode == "defaults", wsgi_module)
+        # the last restart may come WITHOUT --autocreate / --defaults (AUTOCREATE unset): existing data is served
+        # as it is - the principal must still be recognised as one
+        flagless = plain_last and k == restarts - 1
+        backend, app = boot(principal, mode == "autocreate" and not flagless, mode == "defaults" and not flagless,
+                            wsgi_module, cli_prefix)
         if Wm.digest(w) != before:
             return (False, "restart-changed-data")
     got = discover(app, prefix, wsgi)
@@ -247,15 +323,16 @@ def _discovery(i1, i2, nseg, slash, restarts, bare_existing=False):
             ok = ok and g.status_class == "2xx" and g.body == b"v7"
         g = mweb.call(app, "GET", cal + "/e.ics", prefix=prefix, wsgi=wsgi)
         ok = ok and g.status_class == "2xx" and g.body == b"xe"
-    return (ok, ("wsgi-" if wsgi_module else "") + mode + ":restarts%d" % restarts)
+    return (ok, ("wsgi-" if wsgi_module else "cli-" if cli else "") + mode + ":restarts%d" % restarts)
 
 
-def h_discovery(i1: int, i2: int, nseg: int, slash: bool, restarts: int, bare_existing: bool) -> bool:
+def h_discovery(i1: int, i2: int, nseg: int, slash: bool, restarts: int, bare_existing: bool, plain_last: bool) -> bool:
     """
     pre: 0 <= i1 < len(SEGMENU) and 0 <= i2 < len(SEGMENU) and 1 <= nseg <= 2 and 0 <= restarts <= ctx.b.restarts
+    pre: not slash and not plain_last and (nseg == 2 or i2 == 0)
     post: _
     """
-    return run(body_discovery, i1, i2, nseg, slash, restarts, bare_existing)
+    return run(body_discovery, i1, i2, nseg, slash, restarts, bare_existing, plain_last)
 
 
 def body_wellknown(which, sn_in_script):
@@ -294,19 +371,26 @@ def h_wellknown(which: int, sn_in_script: bool) -> bool:
 
 _B = {"quick": {"slen": 2, "restarts": 1}, "thorough": {"slen": 2, "restarts": 2}}
 _PARTS_Q = [("/", False, "defaults"), ("/dav/", False, "defaults"), ("/a/b/", True, "defaults"),
-            ("/", True, "autocreate"), ("/dav/", False, "autocreate"), ("/dav/", True, "wsgi-defaults")]
+            ("/", True, "autocreate"), ("/dav/", False, "autocreate"), ("/dav/", True, "wsgi-defaults"),
+            ("/", True, "wsgi-autocreate"), ("/dav/", False, "cli-defaults"), ("/", False, "cli-autocreate"),
+            ("/a/b/", False, "cli-defaults")]
 _PARTS_T = [(p, w, m) for p in PREFIXES for w in (False, True) for m in ("defaults", "autocreate")] + [
-    (p, True, m) for p in PREFIXES for m in ("wsgi-defaults", "wsgi-autocreate")]
+    (p, True, m) for p in PREFIXES for m in ("wsgi-defaults", "wsgi-autocreate")] + [
+    (p, False, m) for p in PREFIXES for m in ("cli-defaults", "cli-autocreate")]
 
 HARNESSES = [
     Harness("discovery", h_discovery, body_discovery,
             classes=[("defaults:restarts0", ("/", False, "defaults")), ("defaults:restarts1", ("/dav/", False, "defaults")),
                      ("autocreate:restarts1", ("/", True, "autocreate")),
-                     ("wsgi-defaults:restarts1", ("/dav/", True, "wsgi-defaults"))],
+                     ("wsgi-defaults:restarts1", ("/dav/", True, "wsgi-defaults")),
+                     ("cli-defaults:restarts1", ("/dav/", False, "cli-defaults")), ("cli-autocreate:restarts0", ("/", False, "cli-autocreate"))],
             parts={"quick": _PARTS_Q, "thorough": _PARTS_T}, bounds=_B, budget={"quick": 100, "thorough": 600},
-            describe="start-up with --defaults / --autocreate for a symbolic principal path, user data, 0..n restarts, "
-                     "then root -> current-user-principal -> home sets -> Depth 1; part = (prefix, WSGI?, mode)",
-            encodes=["xandikos.web.run_simple_server", "xandikos.web.XandikosBackend.create_principal",
+            describe="start-up with --defaults / --autocreate (run_simple_server, the xandikos/wsgi.py script, and the command "
+                     "line's web.main - each extracted from the current source) for a principal path from a menu, data "
+                     "directory present or missing, user data, 0..n restarts, then root -> current-user-principal (is a "
+                     "principal, principal-URL leads back) -> home sets -> Depth 1; exhaustive over the menu; part = (prefix, "
+                     "WSGI?, mode)",
+            encodes=["xandikos.web.run_simple_server", "xandikos.web.main", "xandikos.web.XandikosBackend.create_principal",
                      "xandikos.web.XandikosBackend._mark_as_principal", "xandikos.web.PrincipalBare.create",
                      "xandikos.web.CollectionSetResource.create", "xandikos.web.create_principal_defaults",
                      "xandikos.web.XandikosBackend.create_collection", "xandikos.web.XandikosApp.__init__",
